@@ -20,6 +20,8 @@ import XpDriver.C04
 import XpDriver.C14
 import XpDriver.C15
 import XpDriver.C18
+import XpDriver.C10
+import XpDriver.C11
 open Lean Xp Xp.Proto
 
 def dispatch (op : String) (j : Json) : R Json :=
@@ -73,6 +75,11 @@ def dispatch (op : String) (j : Json) : R Json :=
   | "proto_run" => Ops.protoRun j
   | "proto_objs" => Ops.protoObjs j
   | "proto_local" => Ops.protoLocal j
+  | "relunet" => Ops.relunet j
+  | "gradcam" => Ops.gradcam j
+  | "gradcam_layer" => Ops.gradcamLayer j
+  | "tw_call" => Ops.twCall j
+  | "bb_scores" => Ops.bbScores j
   | _ => throw "bad-op"
 
 def step (line : String) : String :=
